@@ -388,9 +388,27 @@ Session.show = _show
 def main():
     s = Session()
     out = sys.stdout
-    for line in sys.stdin:
+    # IMPL_ALIGN=<file with another run's answers>: keep this run's quantity/measurement/level
+    # stores index-aligned with that run (used to compare python and python -O on one op list:
+    # an op that raises in one mode and returns a quantity in the other must not shift the
+    # numbering of later operands).
+    align = None
+    if os.environ.get("IMPL_ALIGN"):
+        with open(os.environ["IMPL_ALIGN"], encoding="utf-8") as fh:
+            align = fh.read().split("\n")
+    for i, line in enumerate(sys.stdin):
         line = line.rstrip("\n").rstrip("\r")
-        out.write(s.execute(line) + "\n")
+        before = (len(s.qs), len(s.ms), len(s.ls))
+        res = s.execute(line)
+        if align is not None and i < len(align):
+            for store, tag, k in ((s.qs, "ok\tq\t", 0), (s.ms, "ok\tM\t", 1), (s.ls, "ok\tL\t", 2)):
+                other_added = align[i].startswith(tag)
+                mine_added = len(store) > before[k]
+                if other_added and not mine_added:
+                    store.append(None)
+                elif mine_added and not other_added:
+                    store.pop()
+        out.write(res + "\n")
     out.flush()
 
 
